@@ -805,6 +805,56 @@ func resolveTempPhi(phi *ssa.Phi) ssa.Value {
 			}
 		}
 		if errPhi == nil {
+			// a helper that answers (value, ok): the value on the exits where ok is true, the zero value elsewhere, and
+			// every use behind a test of ok
+			var okPhi *ssa.Phi
+			for _, in := range phi.Block().Instrs {
+				p, isPhi := in.(*ssa.Phi)
+				if !isPhi {
+					break
+				}
+				if p != phi && normTempSuffix(p.Comment) == sfx && p.Type().String() == "bool" && okPhi == nil {
+					allConst := true
+					for _, e := range p.Edges {
+						if k, isK := e.(*ssa.Const); !isK || k.Value == nil {
+							allConst = false
+						}
+					}
+					if allConst {
+						okPhi = p
+					}
+				}
+			}
+			if okPhi != nil && phi.Type().String() != "bool" {
+				var val ssa.Value
+				good := true
+				for i, e := range phi.Edges {
+					if okPhi.Edges[i].(*ssa.Const).Value.String() == "true" {
+						if val != nil && val != e {
+							good = false
+						}
+						val = e
+					} else if !isZeroConst(e) && !NilConst(e) {
+						good = false
+					}
+				}
+				if good && val != nil && phi.Referrers() != nil {
+					fn := phi.Parent()
+					okEdges := BoolEdges(fn, Same(okPhi), true)
+					all := len(okEdges) > 0
+					for _, r := range *phi.Referrers() {
+						if _, isDbg := r.(*ssa.DebugRef); isDbg {
+							continue
+						}
+						if g, _ := GuardedBy(fn, r, okEdges); !g {
+							all = false
+						}
+					}
+					if all {
+						return val
+					}
+				}
+			}
 			// a helper that answers "a value, or nil for nothing": one value on one exit, nil on the others, and every use
 			// behind a test that the temporary is not nil. Not for errors and statuses: there nil is an answer of its own
 			// ("fine"), and an exit that answers nil without having asked is exactly what a rule has to see (a remembered
